@@ -1329,10 +1329,12 @@ class Engine:
             val = self.rvalue(st, frame, s[2], dest_ty)
             dst = self.place(st, frame, s[1])
             assign_node(dst, val)
+            self._log_write(st, frame, s[1])
             return
         if k == "setdiscr":
             dst = self.place(st, frame, s[1])
             dst.tag = bv64(s[2])
+            self._log_write(st, frame, s[1])
             return
         if k == "assume":
             t = self.scalar(self.operand(st, frame, s[1]), "bool")
@@ -1340,6 +1342,19 @@ class Engine:
             self.solver.add(t)
             return
         raise Unsupported("statement %r" % (s,))
+
+    def _log_write(self, st, frame, p):
+        """Stores through a dereference (memory the caller can see) are logged per path: (function, place, trace length)."""
+        q, through = p, False
+        chain = []
+        while q[0] != "local":
+            if q[0] == "deref":
+                through = True
+            chain.append(q[0] if q[0] != "field" else "f%s" % (q[2],))
+            q = q[1]
+        if through:
+            st.extra.setdefault("writes", []).append((short_name(frame.fn.name), "_%d.%s" % (q[1], ".".join(reversed(chain))),
+                                                      len(st.trace), len(st.frames)))
 
     def place_ty(self, frame, p):
         k = p[0]
